@@ -7,12 +7,12 @@ import common as C
 import graphiso as G
 
 
-def execute_and_validate(name, raw_path, layout_seed=None, nworkers=None, timeout=3600, cfg="TraceExec.cfg"):
+def execute_and_validate(name, raw_path, layout_seed=None, nworkers=None, timeout=3600, cfg="TraceExec.cfg", run_timeout=1800):
     """runs the cases of raw_path through the real library and through TLC.
     returns (cases, results_by_id, stats)"""
     d = C.workdir(name)
     out = os.path.join(d, "traces.ndjson")
-    st, code = C.run_cases(raw_path, out, layout_seed)
+    st, code = C.run_cases(raw_path, out, layout_seed, timeout=run_timeout)
     if st != "ok":
         # a crash of the whole batch (abort / stack overflow / hang in the code under test): bisect
         return bisect_crash(name, raw_path, layout_seed, st)
@@ -62,7 +62,7 @@ def bisect_crash(name, raw_path, layout_seed, st):
         p = os.path.join(d, "bisect_%s.ndjson" % tag)
         o = os.path.join(d, "bisect_%s.out.ndjson" % tag)
         C.write_ndjson(p, sub)
-        s, _ = C.run_cases(p, o, layout_seed, timeout=120 + 2 * len(sub))
+        s, _ = C.run_cases(p, o, layout_seed, timeout=15 + 0.5 * len(sub))
         return s == "ok"
 
     stack = [items]
@@ -226,20 +226,20 @@ class ExecRun:
         self.classified = []
         self.counts = {"agree_ok": 0, "agree_err": 0, "agree_cancelled": 0, "skip": 0, "unsupported": 0, "load_err": 0, "violation": 0}
 
-    def add_batch(self, name, raw, layout_seed=None):
-        cases, results, stats = execute_and_validate(name, raw, layout_seed)
+    def add_batch(self, name, raw, layout_seed=None, run_timeout=1800):
+        cases, results, stats = execute_and_validate(name, raw, layout_seed, run_timeout=run_timeout)
         self.cases += cases
         self.results.update(results)
         self.states += stats["distinct"]
         self.trans += stats["states"]
         return cases, results
 
-    def add_cases(self, name, items, layout_seed=None):
+    def add_cases(self, name, items, layout_seed=None, run_timeout=1800):
         items = [strip_nulls(x) for x in items]     # TLC's Json module cannot read null
         d = C.workdir(name)
         raw = os.path.join(d, "raw.ndjson")
         C.write_ndjson(raw, items)
-        return self.add_batch(name, raw, layout_seed)
+        return self.add_batch(name, raw, layout_seed, run_timeout)
 
     def classify_all(self, report=True, panic_only=False):
         """compares every case with its own machine; reports violations (optionally only crashes)"""
